@@ -183,6 +183,42 @@ pub fn run(a: &Args, r: &mut Report) {
             r.sample(json!({"frame": hexs(&f), "syndrome": format!("{:06x}", crc::remainder(&f))}));
         }
     }
+    // every syndrome: one valid DF17 frame whose parity is XOR-ed with s has remainder exactly s; it must be refused
+    // for every s != 0 (quick: s < 2^16, s = k << 8 for k < 2^16, s = k << 16; thorough: all 2^24 - 1)
+    {
+        let me = crate::props::common::adsb_me(&mut rng, 11);
+        let base = crate::oracle::frames::df17(5, 0x4840d6, &me);
+        if accepted_df17(&base) == Ok(true) {
+            let mut k = a.shard;
+            let total: u64 = if a.thorough() { 1 << 24 } else { (1 << 16) + (1 << 16) + 256 };
+            while k < total {
+                let s: u32 = if a.thorough() {
+                    k as u32
+                } else if k < (1 << 16) {
+                    k as u32
+                } else if k < (1 << 17) {
+                    ((k - (1 << 16)) as u32) << 8
+                } else {
+                    ((k - (1 << 17)) as u32) << 16
+                };
+                k += a.nshards;
+                if s == 0 {
+                    continue;
+                }
+                let mut f = base.clone();
+                let n = f.len();
+                f[n - 3] ^= (s >> 16) as u8;
+                f[n - 2] ^= (s >> 8) as u8;
+                f[n - 1] ^= s as u8;
+                r.evaluations += 1;
+                match accepted_df17(&f) {
+                    Ok(true) => r.violation("C02:invalid-accepted:syndrome-sweep", format!("DF17 {} has remainder {s:06x} and is accepted", hexs(&f)), json!({"kind":"accept","frame":hexs(&f)})),
+                    Ok(false) => r.class("df17:syndrome-sweep-rejected"),
+                    Err((loc, msg)) => r.violation(&format!("C02:panic:decode:{}", short_loc(&loc)), format!("decoding {} panicked: {}", hexs(&f), msg_class(&msg)), json!({"kind":"accept","frame":hexs(&f)})),
+                }
+            }
+        }
+    }
 
     // 3. corruption of valid frames
     let nbase = if a.thorough() { 4 } else { 1 };
